@@ -210,9 +210,9 @@ HookTrace(c, before, after) ==
   THEN << <<IF Top.m = "L" THEN 0 ELSE 1, Top.st>>, <<IF after[Len(after)].m = "L" THEN 0 ELSE 1, StStart>> >>
   ELSE << <<IF Top.m = "L" THEN 0 ELSE 1, Top.st>> >>
 
-Read(c) ==
-  /\ outcome = "run" /\ Len(input) < MaxLen /\ c \in Classes
-  /\ (c \in {"[", "{"} => Len(stack) < MaxDepth \/ Top.inVal \/ Top.st \notin {StVal})
+\* one character through both machines (no exploration bounds: also used by ParserSMTrace.tla)
+ReadAny(c) ==
+  /\ outcome = "run"
   /\ LET ln == IF c = "n" THEN line + 1 ELSE line
          res == Machine(c)
      IN /\ input' = Append(input, c)
@@ -222,6 +222,12 @@ Read(c) ==
         /\ trace' = trace \o (IF c = "i" THEN <<>> ELSE HookTrace(c, stack, res.stack))
         /\ ref' = RStep(ref, c)
         /\ result' = res.tree
+
+Read(c) ==
+  /\ Len(input) < MaxLen /\ c \in Classes
+  /\ outcome = "run"
+  /\ (c \in {"[", "{"} => Len(stack) < MaxDepth \/ Top.inVal \/ Top.st \notin {StVal})
+  /\ ReadAny(c)
 
 Next == /\ (\E root \in Roots : Start(root)) \/ (\E c \in Classes : Read(c))
         /\ Emit => PrintT(ToJson([input |-> input', outcome |-> outcome', line |-> line', trace |-> trace',
